@@ -15,17 +15,17 @@ HIST_NOTE = ('Trusted: the reference model as the reading of the statement (it i
 CHECKS = {
     'C01': dict(engine='histmc', sec='4 C01', text='All histories over create/release/call/move/destroy of overlapping expectations (two or three live at a time, three matcher kinds, WITH, four bounds, sequenced variants, a movable mock) up to the stated depth: accept/reject, exactly-one-fatal-report, empty clause log on rejection and unchanged is_satisfied/is_saturated vector are compared with the model on every step.'),
     'C02': dict(engine='histmc', sec='4 C02', text='All configurations of three overlapping expectations (wildcard / eq / lt / WITH) x subsets of two sequences x bounds, and all call/release orders up to the depth: the handler identity (carried by the returned value), the clause log and the state vector of every other expectation are compared with the selection function of the model; an isolation plan puts expectations on another object, function and overload.'),
-    'C03': dict(engine='histmc', sec='4 C03', text='Every bound form (default, TIMES(n), TIMES(l,h), AT_LEAST, AT_MOST, ALLOW_CALL, FORBID_CALL, RT_TIMES(l,h) for 0<=l<=h<=3 and unbounded) alone and stacked under/over ALLOW_CALL, n up to H+2 calls with queries after every step, RT_TIMES(lo>hi) with and without IN_SEQUENCE.'),
-    'C04': dict(engine='histmc', sec='4 C04', text='All orders of release, mock destruction, mock move, calls and earlier no-match reports for expectations with five bound pairs on a plain and a movable mock: number, kind, culprit, required/actual counts, text and expected-parameter lines of every end-of-life report.'),
+    'C03': dict(engine='histmc', sec='4 C03', text='Every bound form (default, TIMES(n), TIMES(l,h), AT_LEAST, AT_MOST, ALLOW_CALL, FORBID_CALL, RT_TIMES(l,h) for 0<=l<=h<=3 and unbounded) alone and stacked under/over ALLOW_CALL, n up to H+2 calls with queries after every step, RT_TIMES(n), RT_TIMES(lo>hi) with and without IN_SEQUENCE, the same bounds on sequenced expectations stated before or after IN_SEQUENCE, on a moved mock, and through the variadic _V macros. Companion enumeration in the same check: every macro spelling ({REQUIRE,ALLOW,FORBID}_CALL x plain/_V x scoped/NAMED_ x clause lists) x every call sequence over two argument values up to length 4/5 against a reference evaluator.'),
+    'C04': dict(engine='histmc', sec='4 C04', text='All orders of release, mock destruction, mock move, calls and earlier no-match reports for expectations with five bound pairs on a plain and a movable mock: number, kind, culprit, required/actual counts, text and expected-parameter lines of every end-of-life report, is_satisfied/is_saturated after every step; lifetimes ended by stack unwinding; a reporter (user code) that destroys the mock while a report is delivered; RT_TIMES(n) and _V forms. The macro-spelling companion enumeration (scoped vs NAMED_ lifetimes) runs in the same check.'),
     'C05': dict(engine='histmc', sec='4 C05', text='All assignments of three expectations / lifetime monitors to subsets of two sequences with the stated bounds, all call / release / destruction orders up to the depth: eligibility, forward-only movement, one fatal report and unchanged state on ineligible calls, non-fatal reports per violated sequence for destructions.'),
     'C06': dict(engine='histmc', sec='4 C06', text='Same configuration space with sequence destruction and move added: is_completed() of every live sequence after every step, and the teardown report (exactly the still-registered expectations, in registration order).'),
-    'C07': dict(engine='histmc', sec='4 C07', text='All stackings and lifetime nestings of allowing and forbidding expectations (FORBID_CALL, TIMES(0), RT_TIMES(0,0)) with overlapping matchers, repeated forbidden calls: one fatal forbidden report with location and arguments, no action, unchanged state; behaviour after release as if it never existed (the model forgets released expectations).'),
-    'C08': dict(engine='histmc', sec='4 C08', text='Every interleaving of up to 2 (quick) / 3 (thorough) WITH and SIDE_EFFECT clauses on value, void, reference-returning and throwing expectations, with every vector of run-time switches (condition false, side effect throws, side effect calls another mock function), a shadowed older expectation with its own clauses: clause evaluation log, returned value / object identity / exception, counting on throw, WITH pass shape.'),
-    'C13': dict(engine='histmc', sec='4 C13', text='All orders of monitor creation/release, object destruction, copy/move construction and copy/move assignment over 2 (quick) / 3 (thorough) deathwatched objects and 2-3 monitor slots, with and without sequences; address-sanitized build so that a stale monitor pointer is a crash.'),
+    'C07': dict(engine='histmc', sec='4 C07', text='All stackings and lifetime nestings of allowing and forbidding expectations (FORBID_CALL, TIMES(0), RT_TIMES(0,0)) with overlapping matchers, repeated forbidden calls: one fatal forbidden report with location and arguments, no action, unchanged state; behaviour after release as if it never existed (the model forgets released expectations); FORBID_CALL with WITH, the _V forms, a run-time zero bound with IN_SEQUENCE in either order. The macro-spelling companion enumeration runs over the FORBID forms in the same check.'),
+    'C08': dict(engine='histmc', sec='4 C08', text='Every interleaving of up to 2 (quick) / 3 (thorough) WITH and SIDE_EFFECT clauses on value, void, reference-returning and throwing expectations, with every vector of run-time switches (condition false, side effect throws, side effect calls another mock function), a shadowed older expectation with its own clauses: clause evaluation log, returned value / object identity / exception, counting on throw, WITH pass shape; no-match paths with several WITH clauses; a side effect that destroys its own mock object; throwing calls inside sequences; the _V forms.'),
+    'C13': dict(engine='histmc', sec='4 C13', text='All orders of monitor creation/release, object destruction, copy/move construction and copy/move assignment over 2 (quick) / 3 (thorough) deathwatched objects and 2-3 monitor slots, with and without sequences; address-sanitized build so that a stale monitor pointer is a crash; objects destroyed by stack unwinding; copies from const and non-const lvalues. Companion enumeration: scoped and NAMED_ REQUIRE_DESTRUCTION, with and without IN_SEQUENCE, death inside / after the scope.'),
     'C14': dict(engine='histmc', sec='4 C14', text='Unmerged enumeration of every destruction / move order (to the stated depth) of a mixed population - plain and movable mock, expectations (one saturating), two sequences, watched object with sequenced monitor, tracer - with probe calls on the survivors, under ASan+UBSan+LSan and the library\'s own TROMPELOEIL_SANITY_CHECKS asserts; behaviour of moved mocks compared with the model.'),
     'C15': dict(engine='histmc', sec='4 C15', text='The severity / culprit / listing mask applied to every violation produced by the alphabets of C01, C03-C07 and C13, plus a two-parameter overload plan (expectations matching one position and missing the other, WITH failing after the parameters fit).'),
-    'C16': dict(engine='histmc', sec='4 C16', text='All histories over three expectation slots (allowing, bounded, forbidding, sequenced, other function), calls with three argument values and reporter replacement (pair and single-argument forms) at arbitrary points: OK reports per call and the routing of reports to the installed generation.'),
-    'C17': dict(engine='histmc', sec='4 C17', text='All nestings of up to three tracers (recording tracer and stream_tracer) interleaved with calls returning values / references / void, throwing std and non-std exceptions, and recursive calls from side effects: the trace records each tracer received.'),
+    'C16': dict(engine='histmc', sec='4 C16', text='All histories over three expectation slots (allowing, bounded, forbidding, sequenced, other function), calls with three argument values and reporter replacement (pair and single-argument forms) at arbitrary points: OK reports per call and the routing of reports to the installed generation; calls from a catch handler, throwing / nesting side effects, bounds with L >= 2, a nullary function, ANY(int) in the text, an OK callback that installs reporters, and a reporter function object with state (the object handed back by set_reporter must be the installed one).'),
+    'C17': dict(engine='histmc', sec='4 C17', text='All nestings of up to three tracers (recording tracer and stream_tracer) interleaved with calls returning values / references / void, throwing std and non-std exceptions, and recursive calls from side effects: the trace records each tracer received; std::string results, throwing side effects, a tracer constructed inside a call, a nullary function, a macro inside the expectation text.'),
 }
 
 SCHED_TECH = ('stateless model checking of the implementation: exhaustive depth-first enumeration of all schedules (choice of the next thread to enter a critical section) of all tiny '
@@ -37,21 +37,21 @@ COMP_TECH = ('explicit-state exploration of the clause typestate automaton (the 
              'sequence up to the length bound is compiled by g++ and clang++ against the real headers and the outcome / diagnostic compared with the automaton')
 
 CHECKS.update({
-    'C09': dict(engine='enum', tech=ENUM_TECH, sec='4 C09', note='Trusted: the instrumented argument type (copy/move counters), g++ 12 -O0. 4399 checks over 1099 generated mock functions; C++14 macro set only.',
-                text='One generated mock function per (arity 0..15, probed position, passing mode {int, T&, const T&, T&&, T*, by value, move-only by value, move-only &&}) plus const / overloaded / IMPLEMENT_MOCKn kinds on the first and last position; WITH, SIDE_EFFECT, RETURN and THROW each reference _p: address identity, caller-visible writes, copy/move counts, positional values of all other parameters; locals modified between creation and call for every clause kind ([=] vs [&]).'),
+    'C09': dict(engine='enum', tech=ENUM_TECH, sec='4 C09', note='Trusted: the instrumented argument types (copy/move counters), g++ 12 -O0 for the grid and g++ 12 -O1 with ASan (detect_stack_use_after_return=1) for the lifetime companion; C++14 macro set.',
+                text='One generated mock function per (arity 0..15, probed position, passing mode {int, T&, const T&, T&&, T*, by value, move-only by value, move-only &&}) plus const / overloaded / IMPLEMENT_MOCKn kinds on the first and last position; WITH, SIDE_EFFECT, RETURN and THROW each reference _p: address identity, caller-visible writes, copy/move counts, positional values of all other parameters; locals modified between creation and call for every clause kind ([=] vs [&]); const-reference and rvalue returns, constness of T& parameters inside clauses, RETURN of an lvalue parameter copies. Companion: factory-made expectations of every plain clause kind used after the creating frame is gone (sanitizer decides lifetime).'),
     'C10': dict(engine='enum', tech=ENUM_TECH, sec='4 C10', note='Trusted: the 40-line reference evaluator over the term syntax; value domain {-1..3}; term depth <= 2; sanitizer build.',
-                text='Every matcher term up to depth 2 over the leaves (_, ANY, eq/ne/lt/le/gt/ge duck-typed and typed, plain values), !m, *m on raw/unique/shared pointers incl. null, any_of/all_of/none_of with 1-3 operands, MEMBER_IS; every operand and argument value in {-1..3}; strings incl. empty, 9 regular expressions x 8 subjects incl. null; operand lvalues reused across matchers; a slice through real mock calls.'),
+                text='Every matcher term up to depth 2 over the leaves (_, ANY, eq/ne/lt/le/gt/ge duck-typed and typed, plain values), !m, *m on raw/unique/shared pointers incl. null, any_of/all_of/none_of with 1-3 operands, MEMBER_IS; every operand and argument value in {-1..3}; strings incl. empty, 9 regular expressions x 8 subjects incl. null; operand lvalues reused across matchers; user-defined pointer types, doubles incl. NaN, strings with NUL, groups / back-references and match flags in re(), the documented null-guard idiom, operands of a wider arithmetic type; a slice through real mock calls.'),
     'C11': dict(engine='enum', tech=ENUM_TECH, sec='4 C11', note='Trusted: the reference predicates (injective assignment by brute force; first-fit with either removal discipline for overlapping matchers).',
                 text='Every range over {1,2,3} up to length 4 (quick) / 5 (thorough) x every element list up to length 3 / 4 x the 8 range matchers x variadic and collection flavour x element families (plain values, eq, all_of(ge,le), overlapping gt) x containers (vector, list, deque, array, C array, initializer_list); all documented call forms must compile (both compilers).'),
     'C12': dict(engine='schedmc', tech=SCHED_TECH, sec='4 C12', note='Trusted: the scheduler (engines/schedmc/sched.c, uninstrumented, raw futex), ThreadSanitizer of clang 14 as the race oracle, the reference model with the atomic steps of appendix B. Scheduling granularity = outermost acquisitions of the library lock; sequentially consistent interleavings only.',
-                text='All 2x1 programs over 18 operations, 2x2 programs over the sequence-touching operations (quick) / 15 operations (thorough) and 3x1 programs (thorough): every schedule at critical-section granularity, no preemption bound needed; TSan race reports, deadlock, crash (TSan and ASan+UBSan builds) and linearizability of all results.'),
+                text='All 2x1 programs over 21 operations, 2x2 programs over 10 operations (quick) / 18 operations (thorough), 3x1 programs (thorough): every schedule at critical-section granularity, no preemption bound; 2x3 programs with at most 3 deviations from the default schedule (thorough); tracers constructed inside a call; TSan race reports, deadlock, crash (TSan and ASan+UBSan builds) and linearizability of all results.'),
     'C18': dict(engine='enum', tech=ENUM_TECH, sec='4 C18', note='Trusted: the reference formatter; libstdc++ stream semantics; sanitizer build (a null dereference is a crash of the harness, reported as a violation).',
-                text='Type family (opaque structs of 1..40 bytes x 3 byte patterns, integers of four widths, bool, char, strings, raw/smart/function pointers incl. null, null-comparable classes, printer<T> types, pairs, tuples of 0-3, vector/list/deque/set/map nested to depth 3 with nulls and custom printers at every depth) x all 81 prior stream states for leaves (27 for structures); texts of a trace record and of reports with null arguments.'),
+                text='Type family (opaque structs of 1..40 bytes x 3 byte patterns, integers of four widths, bool, char, strings, raw/smart/function pointers incl. null, null-comparable classes, printer<T> types, pairs, tuples of 0-3, vector/list/deque/set/map nested to depth 3 with nulls and custom printers at every depth) x 81 prior stream states of base x fill x width x adjustment plus 12 with showbase / uppercase / showpos / boolalpha for leaves (structures: those without pending width); null-comparable types with user printers; arguments as reference wrappers; texts of trace records and reports with null, const& and && parameters.'),
     'C20': dict(engine='enum', tech=ENUM_TECH.replace('bounded exhaustive exploration of a term / input space against a reference model', 'bounded exhaustive exploration of operation sequences against a reference model: every interleaving of call / resume / destroy steps of up to three coroutines per expectation shape, plus'), sec='4 C20',
                 note='Trusted: the harness\'s own minimal coroutine types (eager/lazy task<int>, task<void>, generator), g++ 12 -std=c++20 with ASan+UBSan. Parameterless mock functions (the statement does not promise parameter lifetime); CO_THROW on return_void generators does not compile and is not a documented combination.',
-                text='Every expectation shape (0..4 CO_YIELD clauses x terminal {CO_RETURN value, CO_RETURN of a throwing expression, CO_THROW, void CO_RETURN} x clause order x 5 coroutine types) x 1..3 calls x every interleaving of the call / resume (/ destroy) steps of the resulting coroutines: per-coroutine event sequence, side effects at call time only, release reports; saturation, sequence order, forbidding and argument matching at call time.'),
+                text='Every expectation shape (0..4 CO_YIELD clauses x terminal {CO_RETURN value, CO_RETURN of a throwing expression, CO_THROW, void CO_RETURN} x clause order x 8 coroutine types incl. a traits-only promise and reference-result tasks) x 1..3 calls x every interleaving of the call / resume (/ destroy) steps of the resulting coroutines: per-coroutine event sequence, side effects at call time only, release reports; saturation, sequence order, forbidding and argument matching at call time.'),
     'C19': dict(engine='compmc', tech=COMP_TECH, sec='4 C19, appendix D', note='Trusted: the automaton as the reading of the documented diagnostics; g++ 12 and clang++ 14 with libstdc++. Clause sequences up to length 2 (quick) / 3 (thorough).',
-                text='All clause sequences up to the length bound over {WITH, SIDE_EFFECT, RETURN, THROW, TIMES(2), TIMES(0), TIMES(AT_MOST(2)), RT_TIMES, IN_SEQUENCE, CO_RETURN, CO_THROW, CO_YIELD} x signature kinds {void, value, reference, coroutine<int>, coroutine<void>} x {REQUIRE, ALLOW, FORBID}_CALL and NAMED_ forms x C++14/17/20 x g++/clang++; the 68 shipped negative programs with their own pass rules; parameter indices beyond the arity in every clause kind; legal clause orders; the macro namespace of every header under TROMPELOEIL_LONG_MACROS.'),
+                text='All clause sequences up to the length bound over {WITH, SIDE_EFFECT, RETURN, THROW, TIMES(2), TIMES(0), TIMES(AT_MOST(2)), RT_TIMES, IN_SEQUENCE, CO_RETURN, CO_THROW, CO_YIELD} x signature kinds {void, value, reference, coroutine<int>, coroutine<void>} x {REQUIRE, ALLOW, FORBID}_CALL and NAMED_ forms x C++14/17/20 x g++/clang++; the 68 shipped negative programs with their own pass rules; parameter indices beyond the arity in every clause kind; legal clause orders, the _V macro family (misuse and legal), trailing specifiers and the IMPLEMENT_MOCK family; the macro namespace of every header under TROMPELOEIL_LONG_MACROS.'),
 })
 
 PENDING = {
